@@ -2,6 +2,10 @@ LEVEL = "model_checking"
 HARNESSES = [
     dict(name="alist", src=["alist.c"], variant="asan", deadline={"quick": 90, "thorough": 900}),
     dict(name="llist", src=["llist.c"], variant="asan", deadline={"quick": 60, "thorough": 300}),
+    # Debug build: AWS_PRECONDITION / AWS_POSTCONDITION and the 0xDD debug fills of array_list.inl / array_list.c are live
+    dict(name="alist-dbg", src=["alist.c"], variant="asan-dbg", tiers=["thorough"], args=["--light"],
+         deadline={"thorough": 600}),
+    dict(name="llist-dbg", src=["llist.c"], variant="asan-dbg", tiers=["thorough"], deadline={"thorough": 300}),
 ]
 ASSUMPTIONS = [
     "array list: item sizes 1,3,8,128,129,300; storage dynamic (initial 0,1,2 items) or static (2,3 items between two 64-byte guard "
